@@ -70,9 +70,9 @@ func samples(rng *h.Rng, per, perBig, perFull int, st h.Stats) []sample {
 func GenC11(rng *h.Rng, tier string, emit func(string)) {
 	logger.Disable()
 	st := h.Stats{}
-	per, perBig, perFull, nmsg := 60, 8, 4, 150
+	per, perBig, perFull, nmsg := 140, 10, 6, 300
 	if tier == "thorough" {
-		per, perBig, perFull, nmsg = 1500, 120, 40, 3000
+		per, perBig, perFull, nmsg = 600, 40, 20, 3000
 	}
 	for _, s := range samples(rng, per, perBig, perFull, st) {
 		emit(fmt.Sprintf("rt %s %s %d %s", s.mode, s.name, s.seed, h.Hex(s.enc)))
@@ -103,7 +103,7 @@ var bigPrefixes = [][]byte{
 	{0xfe, 0, 0, 0, 0, 0, 0, 0x80},                         // 2^55
 	{0xf0, 0, 0, 0, 0x40},                                  // 2^30
 	{0xf0, 0xff, 0xff, 0xff, 0xff},                         // 2^32-1
-	{0xe0, 0, 0, 0x10},                                     // 2^20
+	{0xe0, 0, 0, 0x20},                                     // 2^21
 	{0xc0, 0, 0x01},                                        // 65536
 	{0xbf, 0xff},                                           // 16383
 	{0x80, 0xff},                                           // 255
@@ -219,7 +219,7 @@ func mutate(g *G, b []byte, heavy bool, yield func(kind string, m []byte)) {
 func genMalformed(rng *h.Rng, tier, verb string, emit func(string), st h.Stats, heavyBig bool) {
 	per, perBig, perFull := 10, 2, 1
 	if tier == "thorough" {
-		per, perBig, perFull = 150, 20, 8
+		per, perBig, perFull = 100, 10, 4
 	}
 	g := &G{R: rng.Fork()}
 	seen := map[string]bool{}
@@ -243,7 +243,7 @@ func genMalformed(rng *h.Rng, tier, verb string, emit func(string), st h.Stats, 
 	// short arbitrary inputs for every decoder
 	nrand := 25
 	if tier == "thorough" {
-		nrand = 400
+		nrand = 300
 	}
 	for _, ent := range Table {
 		out("t", ent.Name, "empty", []byte{})
@@ -288,7 +288,7 @@ func GenC14(rng *h.Rng, tier string, emit func(string)) {
 	// frames
 	nmsg := 120
 	if tier == "thorough" {
-		nmsg = 2500
+		nmsg = 1500
 	}
 	g := &G{R: rng.Fork()}
 	frame := func(kind string, m []byte) {
